@@ -10,6 +10,7 @@ mod format;
 mod resource;
 mod retain;
 mod hirdb;
+mod pairing;
 mod parse;
 mod rename;
 mod stbc;
@@ -30,6 +31,7 @@ fn main() {
         "fb-run" => fb::run(rest),
         "format-gen" => format::gen(rest), "format-run" => format::run(rest),
         "ctrlauth-gen" => ctrlauth::gen(rest), "ctrlauth-run" => ctrlauth::run(rest),
+        "pairing-gen" => pairing::gen(rest), "pairing-run" => pairing::run(rest),
         "resource-run" => resource::run(rest),
         "stcore-gen" => stcore::gen(rest),
         "stwide" => stcore::wide(rest),
